@@ -8,7 +8,7 @@ from . import mir
 SPM = "sync::Replica::<'a, I>::sync_process_message"
 
 
-def evaluate(f, closed, outcome, callbacks=None):
+def evaluate(f, closed, outcome, callbacks=None, marker=None):
     from . import feval as E, coll
     C = coll.Collections(f)
     log = []
@@ -57,6 +57,10 @@ def evaluate(f, closed, outcome, callbacks=None):
             return E.Tok(names[0])
         if name == "entry" and names and names[0] == "incoming-entry":
             return E.Tok("incoming-entry")
+        if marker is not None and name in ("is_empty", "is_deletion", "is_tombstone") and names and names[0] in ("incoming-entry", "record(incoming-entry)"):
+            return E.Int(marker)      # (cells of round 13: the incoming entry is / is not a deletion marker)
+        if marker is not None and name in ("content_len", "len") and names and names[0] in ("incoming-entry", "record(incoming-entry)"):
+            return E.Int(0 if marker else 7)
         if name == "value_count":
             return E.Int(2 if names[0] == "message" else 3 if names[0] == "reply" else 99)
         if name == "values" and names[0] == "message":
@@ -266,7 +270,7 @@ def check_callbacks(ctx, rule):
     b = f.body(SPM + "::{closure#0}")
     cb = []
     try:
-        evaluate(f, 0, "reply", cb)
+        evaluate(f, 0, "reply", cb, marker=0)
     except E.Unsupported as e:
         ctx.bad(rule, SPM, "reconciliation-callbacks", "UNSUPPORTED-FORM: %s" % e, b.sp)
         return
@@ -279,4 +283,15 @@ def check_callbacks(ctx, rule):
     want = ("RemoteInsert(id(capability),incoming-entry,from_peer,matches(policy,incoming-entry),incoming-status)",)
     ctx.check(d.get("event") == [want] and d.get("get_download_policy") == [(("store", "id(capability)"),)], rule, SPM, "reconciliation-callbacks.announce",
               "on-insert callback for an inserted entry: events %s, policy read by %s; spec: one RemoteInsert(this document, the entry, the session's peer, policy-of-this-document.matches(entry), the reported status)" % (d.get("event"), d.get("get_download_policy")), b.sp)
+    # the same for an incoming entry that is / is not a deletion marker (C15-13: "an entry is selected for download exactly when ..."
+    # - the flag is the policy's verdict on the key, whatever the entry's content is)
+    for marker in (1, 0):
+        cb2 = []
+        try:
+            evaluate(f, 0, "reply", cb2, marker=marker)
+            ev2 = [x[1:] for x in cb2 if x[0] == "event"]
+        except E.Unsupported as e:
+            ev2 = "UNSUPPORTED-FORM: %s" % e
+        ctx.check(ev2 == [want], rule, SPM, "reconciliation-callbacks.announce[%s]" % ("deletion-marker" if marker else "record"),
+                  "events %s; spec: one RemoteInsert whose download flag is policy-of-this-document.matches(entry)" % (ev2,), b.sp)
     ctx.check(d.get("content-status") == [("Missing",)], rule, SPM, "reconciliation-callbacks.content-status[no-callback]", "content status of an outgoing entry without a registered callback: %s; spec Missing" % d.get("content-status"), b.sp)
